@@ -46,7 +46,28 @@ Definition model_E2 (c : case) : res (list Z) :=
 
 Definition model_out (c : case) := (model_r c, model_W c, model_rows c, model_E2 c).
 
+(* every model component is evaluated once (vm_compute is call-by-value: the lets are shared) *)
 Definition check_case (c : case) : bool :=
+  match c with
+  | CHop N P perm s T obs_r obs_W obs_rows obs_E2 =>
+      let mW := train P in
+      let r := hopfield_r N in
+      let mrows := bind mW (fun W =>
+                     bind (evolve_plain (async_rule1 (hopfield_rule1 W r) (sh_of perm)) store_id r
+                             (async_init_cells (sh_of perm) (init_order1 N) false tt) [s] T)
+                          (fun xr => Ok (snd xr))) in
+      let mdirect := bind mW (fun W => bind (hop_evolve W r perm s T) (fun kr => Ok (snd kr))) in
+      let mE2 := bind mW (fun W => bind mrows (fun rows => Ok (map (energy2 W) rows))) in
+      res_eqb Nat.eqb (Ok r) obs_r
+      && res_eqb_anyexc zgrid_eqb mW obs_W
+      && res_eqb_anyexc zgrid_eqb mrows obs_rows
+      && res_eqb_anyexc zgrid_eqb mdirect mrows
+      && res_eqb_anyexc zlist_eqb mE2 (bind obs_rows (fun _ => Ok obs_E2))
+  end.
+
+(* check_case is model_out compared component-wise with the observations *)
+Lemma check_case_model_out : forall c,
+  check_case c =
   match c with
   | CHop _ _ _ _ _ obs_r obs_W obs_rows obs_E2 =>
       res_eqb Nat.eqb (Ok (model_r c)) obs_r
@@ -55,3 +76,4 @@ Definition check_case (c : case) : bool :=
       && res_eqb_anyexc zgrid_eqb (model_rows_direct c) (model_rows c)
       && res_eqb_anyexc zlist_eqb (model_E2 c) (bind obs_rows (fun _ => Ok obs_E2))
   end.
+Proof. intros [N P perm s T o1 o2 o3 o4]. reflexivity. Qed.
